@@ -73,6 +73,67 @@ def stream_input_probe(ctx, ws, cwd, rule_path, listing_text, all_matches):
         ctx.disagreement(case, f"`jasm -s /dev/stdin` fed by a pipe logs RESULT {result} and addresses {addrs[:5]}; the same text in a file gives {list(ref[1])[:5]}")
 
 
+def run_cli_on_terminal(args, cwd, columns=80, rows=24):
+    """The command with its standard error attached to a pseudo terminal of the given size (what a user at a shell prompt sees).
+    Returns (exit status, text) or None."""
+    import fcntl
+    import pty
+    import struct
+    import termios
+    try:
+        master, slave = pty.openpty()
+    except OSError:
+        return None           # no pseudo terminals in this sandbox: the probe is inconclusive, not a verdict
+    try:
+        fcntl.ioctl(slave, termios.TIOCSWINSZ, struct.pack("HHHH", rows, columns, 0, 0))
+        p = subprocess.Popen([harness.PY, "-m", "jasm.main"] + args, cwd=cwd, env=harness.child_env(), stdin=subprocess.DEVNULL, stdout=slave, stderr=slave, close_fds=True)
+        os.close(slave)
+        slave = None
+        chunks = []
+        while True:
+            try:
+                b = os.read(master, 65536)
+            except OSError:
+                break
+            if not b:
+                break
+            chunks.append(b)
+        try:
+            rc = p.wait(timeout=180)
+        except subprocess.TimeoutExpired:
+            p.kill()
+            return None
+        return rc, b"".join(chunks).decode("utf-8", "replace").replace("\r\n", "\n")
+    finally:
+        if slave is not None:
+            os.close(slave)
+        os.close(master)
+
+
+def terminal_probe(ctx, ws, cwd):
+    """The command run at an interactive terminal (80 and 200 columns) logs the same `Matched address` lines - whole, one per element
+    of the API's list - and the same RESULT line as when its output is captured through a pipe."""
+    rows = "".join(f"  ffffffff8100{j:04x}:\t90                   \tnop\n" for j in range(12)) + "  ffffffff8100000c:\tc3                   \tret\n"
+    lp = ws.write("tty.s", rows)
+    for pat, only_addr in ((["nop"], True), (["nop", "nop", "nop"], False), ([{"nop": {"times": 12}}, "ret"], False), (["zzz"], True)):
+        rp = ws.write("tty_rule.yaml", real.dump_rule({"pattern": pat}))
+        api = real.match(rp, lp, ret="list", search="all", only_addr=only_addr)
+        for columns in (80, 200):
+            args = ["-p", rp, "-s", lp, "--all-matches"] + (["--return_only_address"] if only_addr else [])
+            out = run_cli_on_terminal(args, cwd, columns=columns)
+            ctx.ran(2)
+            ctx.event("runs_on_a_pseudo_terminal")
+            ctx.case(("tty", str(pat), only_addr, columns), True, stratum="command run on a terminal")
+            case = {"argv": args, "rule": open(rp).read(), "input_text": rows, "macro_files": [], "input_b64": None, "terminal_columns": columns}
+            if out is None or api[0] != "ok":
+                ctx.inconc("terminal run did not finish")
+                continue
+            addrs, result = parse_stderr(out[1])
+            if out[0] != 0 or result != bool(api[1]) or addrs != list(api[1]):
+                ctx.disagreement(case, f"`jasm` on a {columns}-column terminal exits {out[0]}, logs RESULT {result} and {len(addrs)} Matched address lines {[a[:40] for a in addrs[:3]]}; "
+                                       f"the API returns {len(api[1])} elements {[a[:40] for a in list(api[1])[:3]]}")
+
+
 def parse_stderr(err: str):
     addrs, result = [], None
     for line in err.split("\n"):
@@ -242,7 +303,10 @@ def probe_cases(ctx, ws, cwd, asm0, which, part=0, nparts=1):
         os.chdir(cwd)
         try:
             for nm, text in (("@frame.yaml", real.dump_rule({"macros": [{"name": "@fr", "pattern": "push"}]})), ("@rule.yaml", real.dump_rule({"pattern": ["@fr", "mov"]})),
-                             ("@in.s", RELOC), ("my rule.yaml", real.dump_rule({"pattern": ["push", "mov"]})), ("in put.s", RELOC)):
+                             ("@in.s", RELOC), ("my rule.yaml", real.dump_rule({"pattern": ["push", "mov"]})), ("in put.s", RELOC),
+                             # hidden files and editor backups are files like any other when they are named on the command line
+                             (".jasm_macros.yaml", real.dump_rule({"macros": [{"name": "@fr", "pattern": "push"}]})), ("frame.yaml~", real.dump_rule({"macros": [{"name": "@fr", "pattern": "push"}]})),
+                             (".rule.yaml", real.dump_rule({"pattern": ["push", "mov"]})), (".in.s", RELOC)):
                 with open(os.path.join(cwd, nm), "w") as f:
                     f.write(text)
             # a path that goes through a symlinked directory and then "..": the file the operating system reaches, not the lexical one
@@ -258,7 +322,8 @@ def probe_cases(ctx, ws, cwd, asm0, which, part=0, nparts=1):
             with open(os.path.join(cwd, "rule.yaml"), "w") as f:
                 f.write(real.dump_rule({"pattern": ["zzz"]}))
             for rule, inp, macros in (("@rule.yaml", "@in.s", ["@frame.yaml"]), ("my rule.yaml", "in put.s", None), ("@rule.yaml", "in put.s", ["./@frame.yaml"]),
-                                      ("my rule.yaml", "@in.s", ["@frame.yaml"]), ("my rule.yaml", "current/../listing.s", None), ("current/../rule.yaml", "in put.s", None),
+                                      ("my rule.yaml", "@in.s", ["@frame.yaml"]), ("@rule.yaml", "@in.s", [".jasm_macros.yaml"]), ("@rule.yaml", "in put.s", ["frame.yaml~"]),
+                                      ("@rule.yaml", ".in.s", ["./.jasm_macros.yaml"]), (".rule.yaml", ".in.s", None), ("my rule.yaml", "current/../listing.s", None), ("current/../rule.yaml", "in put.s", None),
                                       ("current/../rule.yaml", "current/../listing.s", None)):
                 for am in (False, True):
                     compare(ctx, ws, cwd, rule, inp, False, am, True, macros, "probe-file-names")
@@ -298,6 +363,7 @@ def run_shard(ctx):
         arg_cases(ctx, ws, cwd, ws.write("ok.yaml", "pattern:\n  - push\n"), asm0, elfp)
     if ctx.shard == 1 % ctx.nshards:
         probe_cases(ctx, ws, cwd, asm0, 1)
+        terminal_probe(ctx, ws, cwd)
     parts = max(1, min(8, ctx.nshards - 2))
     if 2 <= ctx.shard < 2 + parts or ctx.nshards <= 2:
         probe_cases(ctx, ws, cwd, asm0, 0, (ctx.shard - 2) % parts, parts if ctx.nshards > 2 else 1)
@@ -371,6 +437,18 @@ def replay(ctx, case):
     if case.get("stream_input"):
         rp = ws.write("rule.yaml", case["rule"])
         return stream_input_probe(ctx, ws, cwd, rp, case["input_text"], "--all-matches" in case["argv"])
+    if case.get("terminal_columns"):
+        rp, lp = ws.write("tty_rule.yaml", case["rule"]), ws.write("tty.s", case["input_text"])
+        oa = "--return_only_address" in case["argv"]
+        api = real.match(rp, lp, ret="list", search="all", only_addr=oa)
+        out = run_cli_on_terminal(["-p", rp, "-s", lp, "--all-matches"] + (["--return_only_address"] if oa else []), cwd, columns=case["terminal_columns"])
+        ctx.ran(2)
+        if out is None or api[0] != "ok":
+            return ctx.inconc("terminal run did not finish")
+        addrs, result = parse_stderr(out[1])
+        if out[0] != 0 or result != bool(api[1]) or addrs != list(api[1]):
+            ctx.disagreement(case, f"`jasm` on a {case['terminal_columns']}-column terminal logs {len(addrs)} Matched address lines {[a[:40] for a in addrs[:3]]}; the API returns {[a[:40] for a in list(api[1])[:3]]}")
+        return
     if not case.get("rule"):
         p = run_cli(ws, case["argv"], cwd)
         if p is not None and p.returncode == 0:
